@@ -164,10 +164,11 @@ impl PreparedQuery {
             };
         }
 
-        let rows: Vec<_> = crate::executor::execute_plan(snapshot, &self.plan, params).collect();
         let mut results = Vec::new();
 
-        for row_res in rows {
+        // Stop at the first error: the plan iterator is not fused, so draining it after a
+        // timeout / limit error would keep producing (and buffering) one error per input row.
+        for row_res in crate::executor::execute_plan(snapshot, &self.plan, params) {
             let row = row_res?;
             let mut map = std::collections::HashMap::new();
             for (k, v) in row.columns().iter().cloned() {
